@@ -52,6 +52,87 @@ def _run_one(item):
         return {"ok": False, "err": type(e).__name__, "msg": str(e)[:300], "tb": traceback.format_exc()[-1000:]}
 
 
+SAMPLE_PROGRAMS = ("homodyne", "homodyne_angle", "heterodyne", "msgate_shot", "homodyne_fock")
+
+
+def _sample_one(item):
+    """One measured program, random stream fixed by the seed: the hbar-free stream of draws is the same at every hbar, so a
+    quadrature outcome is k times the outcome at k = 1 (a heterodyne outcome is dimensionless)."""
+    kind, seed = item
+    try:
+        import strawberryfields as sf
+        from strawberryfields import ops
+        np.random.seed(seed)
+        k = np.sqrt(sf.hbar / 2)
+        prog = sf.Program(1)
+        with prog.context as q:
+            if kind.startswith("msgate"):
+                ops.Squeezed(0.3, 0.4) | q[0]
+                ops.Xgate(0.5 * k) | q[0]
+                ops.MSgate(0.6, 0.3, r_anc=1.2, eta_anc=0.9, avg=False) | q[0]
+            else:
+                ops.Sgate(0.4, 0.3) | q[0]
+                ops.Xgate(0.5 * k) | q[0]
+                ops.Zgate(-0.3 * k) | q[0]
+                if kind in ("homodyne", "homodyne_fock"):
+                    ops.MeasureX | q[0]
+                elif kind == "homodyne_angle":
+                    ops.MeasureHomodyne(0.7) | q[0]
+                else:
+                    ops.MeasureHD | q[0]
+        if kind == "homodyne_fock":
+            eng = sf.Engine("fock", backend_options={"cutoff_dim": 12})
+        else:
+            eng = sf.Engine("bosonic" if kind.startswith("msgate") else ("gaussian" if seed % 2 else "bosonic"))
+        res = eng.run(prog)
+        if kind.startswith("msgate"):
+            val = res.ancillae_samples[0][0]
+        else:
+            val = res.samples[0][0]
+        st = res.state
+        out = {"ok": True, "val": [float(np.real(val)), float(np.imag(val))], "hbar": sf.hbar,
+               "nbar": float(np.real(st.mean_photon(0)[0])) if kind != "homodyne_fock" else 0.0}
+        if kind.startswith("msgate"):
+            out["mean"] = [float(np.real(st.quad_expectation(0, ang)[0])) / k for ang in (0.0, np.pi / 2)]
+        return out
+    except Exception as e:  # noqa
+        return {"ok": False, "err": type(e).__name__, "msg": str(e)[:300], "tb": traceback.format_exc()[-1000:]}
+
+
+def _samples(chk, ks):
+    """Outcome scaling: MC_Hbar's law for a measured quadrature (outcome = k x hbar-free outcome) against sampled runs."""
+    seeds = list(range(11, 11 + (4 if chk.tier == "quick" else 16)))
+    items = [(kind, sd) for kind in SAMPLE_PROGRAMS for sd in seeds]
+    runs = {}
+    for k in ks:
+        runs[k] = common.pmap(_sample_one, items, hbar=2.0 * (k[0] / k[1]) ** 2)
+    base = ks[0]
+    for idx, (kind, sd) in enumerate(items):
+        f = {"backend": "fock" if kind == "homodyne_fock" else ("bosonic" if kind.startswith("msgate") or sd % 2 == 0 else "gaussian"),
+             "op": kind, "measures": True, "sampled": True}
+        chk.count(key=("sample", kind, sd), nontrivial=True)
+        ref = runs[base][idx]
+        for k in ks:
+            o = runs[k][idx]
+            chk.traces += 1
+            det = {"program": kind, "seed": sd, "k": k, "k_ref": base}
+            if not o["ok"]:
+                chk.violation("UnexpectedError", dict(f, error=o["err"]), dict(det, msg=o["msg"]))
+                continue
+            if not ref["ok"] or k == base:
+                continue
+            scale = 1.0 if kind == "heterodyne" else (k[0] / k[1]) / (base[0] / base[1])
+            want = [scale * x for x in ref["val"]]
+            tol = 1e-6
+            if max(abs(x - y) for x, y in zip(want, o["val"])) > tol * (1 + max(abs(x) for x in want)):
+                chk.violation("OutcomeScaling", f, dict(det, outcome=o["val"], outcome_ref=ref["val"], expected=want))
+            if abs(o["nbar"] - ref["nbar"]) > 1e-6 * (1 + abs(ref["nbar"])):
+                chk.violation("DimensionlessDiffers", dict(f, quantity="nbar"), dict(det, hbar1=ref["nbar"], hbar2=o["nbar"]))
+            if "mean" in o and max(abs(x - y) for x, y in zip(o["mean"], ref["mean"])) > 1e-6:
+                chk.violation("ScalingLaw", dict(f, at="conditional"), dict(det, mean=o["mean"], mean_ref=ref["mean"]))
+    chk.sample({"config": "sampled outcomes", "programs": list(SAMPLE_PROGRAMS), "seeds": len(seeds), "k": [list(k) for k in ks]})
+
+
 def c15(chk):
     from . import sfx_cmp as sc
     tier = chk.tier
@@ -59,6 +140,9 @@ def c15(chk):
                 "gates, channels and preparations for a pair (k1, k2) of hbar factors, with the documented rescaling; each is run at "
                 "both hbar values on every simulator; compared: kernel-unit state vs exact state (= scaling law of means and "
                 "covariances), and mean photon number / variance, vacuum fidelity, Fock probabilities between the two runs. "
+                "Sampled outcomes (homodyne on every simulator, heterodyne, the single-shot measurement-based squeezer's ancilla) are "
+                "replayed with the same random stream at each hbar and must follow the same law: quadrature outcome = k x hbar-free "
+                "outcome, heterodyne outcome unchanged, conditional state equal in kernel units. "
                 "Non-trivial = program contains at least one unit-carrying operation after the prefix.")
     chk.assumptions = ["hbar = 2 k^2 with rational k in {1, 1/2, 3/2, 2}; after homodyne the comparison is at 1e-5 (finite squeezing eps)"]
     pairs = [((1, 1), (1, 2)), ((3, 2), (2, 1))] if tier == "quick" else [((1, 1), (1, 2)), ((3, 2), (2, 1)), ((1, 2), (3, 2)), ((2, 1), (1, 1))]
@@ -154,4 +238,5 @@ def c15(chk):
                     if d > 4 * tol * (1 + float(np.max(np.abs(Va)))):
                         chk.violation("ScalingLaw", dict(f, at="pair"), dict(det, diff=d, tol=tol))
             chk.sample({"config": "fock", "k1": k1, "k2": k2, "program": short(items[len(items) // 2]["hist"]), "rescaled": short(items[len(items) // 2]["hist2"])})
+    _samples(chk, [(1, 1), (1, 2), (3, 2)] if tier == "quick" else [(1, 1), (1, 2), (3, 2), (2, 1)])
     chk.exhaustive = True
